@@ -96,4 +96,17 @@ PROPS = {
                       "pivots non-zero on every executed case", "rounding accuracy (residual <= 1e-8 of scale)"],
         assumptions=["variances in the property's range (with_ivar's saturation branches are outside it)"],
     ),
+    "C07": dict(
+        rule="public Vocoder with an all-zero 3-coefficient spectrum (identity filter), rates 8k..96k, frame periods 40..480, 3..14 frames (every 10th case 60 "
+             "frames), F0 tracks {constant, one step, voiced/unvoiced switches at constant F0, steps and switches, all unvoiced} with F0 from 20 Hz to rate/2 "
+             "incl. exactly integer periods; every third case with an odd low-pass order 1..31 and a random per-frame h, plus two auxiliary runs (h = delta, "
+             "h = 0) from which the mixing law is checked. class = (low-pass order bucket, voicing pattern, steps/const, integer/fractional period); "
+             "non-trivial = at least one voiced frame",
+        theorem_clauses=["pulse fires iff counter+1 > period; height sqrt(period)", "every gap of a constant-F0 stretch is floor(T0) or ceil(T0), = T0 for integer T0",
+                         "start fires at once, counter 1", "linear glide of the period across a frame", "period = rate/exp(clamp lf0), NODATA -> unvoiced",
+                         "LCG deviates in [0,1]", "pinned-commit defect (first gap T0-1 for integer T0) as a statement"],
+        test_clauses=["mixed excitation = h*pulses + (delta-h)*noise (from three implementation runs)", "noise mean ~ 0, variance ~ 1 (>= 5000 unvoiced samples)",
+                      "pulse heights under glide, mean power over constant stretches"],
+        assumptions=["the MLSA filter with zero coefficients is the identity (theorem mlsaDf_zero, C06)"],
+    ),
 }
